@@ -165,7 +165,7 @@ def judge_run(prog, ctx, detail, tz, scratch, digests: Dict[str, Dict[str, str]]
             for content, dg in ((pre_ctx, pc), (post_ctx, qc)):
                 if dg is None:
                     continue
-                key = repr(sorted(content.items()))
+                key = core.sha(content)  # canonical: equal content (whatever the insertion order at any depth) => same key
                 old = digests["ctx"].setdefault(key, dg)
                 if old != dg:
                     return ("digest-not-function-of-content", f"{where}: context {content} hashed to {dg} here and to {old} elsewhere"), info
@@ -242,18 +242,18 @@ def _worker(chunk):
 def plan(tier: str):
     if tier == "quick":
         progs = gen.programs(ALPHA_FULL, [1, 2]) + gen.programs(ALPHA_SMALL[:9] + ["two", "srcdef", "ctxw"], [3])
-        details, tzs = ["hash", "all"], ["UTC", "Asia/Tokyo", "Asia/Kathmandu"]
+        details, tzs = ["hash", "all", "repr", "hash,context", "context", "repr,context", "hash,repr"], ["UTC", "Asia/Tokyo", "Asia/Kathmandu"]
     else:
         progs = gen.programs(ALPHA_FULL, [1, 2, 3])
-        details, tzs = ["hash", "repr", "context", "all"], TZS
+        details, tzs = ["hash", "repr", "context", "all", "hash,repr", "hash,context", "repr,context"], TZS
     progs = list(progs) + list(SAME_FAMILY_PROGS)
     # programs that cannot even be constructed carry no SER: keep a few, drop the bulk
     progs = [p for p in sorted(set(progs)) if sum(gen.SYMBOLS[s]["kind"] == "invalid" for s in p) == 0 or len(p) == 1]
     jobs = []
     for i, p in enumerate(progs):
         if len(p) == 1:
-            for d in details:
-                for tz in tzs:
+            for j, d in enumerate(details):
+                for tz in (tzs if tier != "quick" or j < 2 else [tzs[(i + j) % len(tzs)]]):
                     jobs.append((p, d, tz))
         else:
             jobs.append((p, details[i % len(details)], tzs[(i // len(details)) % len(tzs)]))
